@@ -1,4 +1,6 @@
+mod c04;
 mod c08;
+mod c12;
 mod c13;
 mod out;
 mod rng;
@@ -34,6 +36,20 @@ fn main() {
                     out.case(&i, &o, nt, r);
                 }
             }
+            "C04" => {
+                let ctx = c04::Ctx::new();
+                for r in &reqs {
+                    let (i, o, nt) = ctx.exec(r);
+                    out.case(&i, &o, nt, r);
+                }
+            }
+            "C12" => {
+                let ctx = c12::Ctx::new();
+                for r in &reqs {
+                    let (i, o, nt) = ctx.exec(r);
+                    out.case(&i, &o, nt, r);
+                }
+            }
             "C08" => {
                 let ctx = c08::Ctx::new();
                 for r in &reqs {
@@ -56,6 +72,14 @@ fn main() {
         "C13" => {
             c13::generate(&mut out, tier, seed);
             out.finish(c13::RULE, true);
+        }
+        "C04" => {
+            c04::generate(&mut out, tier, seed);
+            out.finish(c04::RULE, true);
+        }
+        "C12" => {
+            c12::generate(&mut out, tier, seed);
+            out.finish(c12::RULE, false);
         }
         "C08" => {
             c08::generate(&mut out, tier, seed);
